@@ -385,8 +385,8 @@ def app_traj_scenario(ctx):
 
 # ---------------------------------------------------------------- k-medoids through the front end, with a restart
 def app_kmedoids_scenario(ctx):
-    """`--algorithm kmedoids`: a cold start in one process, then a restart from the files it wrote (`--init-center-inds`,
-    `--init-assignments`, `--init-distances`) on N simulated ranks.  Every set of output files must decode to a
+    """`--algorithm kmedoids` restarted from files the front end wrote itself (`--init-center-inds`, `--init-assignments`,
+    `--init-distances`): a k-centers run in one process, then k-medoids sweeps from its output files on N simulated ranks.  Every set of output files must decode to a
     self-consistent clustering, and the restart must not be worse than what it started from."""
     t = ctx.tape
     e = C.E()
@@ -421,9 +421,12 @@ def app_kmedoids_scenario(ctx):
                     ctr=os.path.join(d, tag + '-centers.npy'), inds=os.path.join(d, tag + '-inds.npy'))
 
     def argv_for(o, iters, init=None):
-        a = ['cluster', '--features'] + feats + ['--algorithm', 'kmedoids', '--cluster-distance', P.metric_name, '--cluster-number', str(K),
-                                                '--cluster-iterations', str(iters), '--distances', o['dist'], '--assignments', o['assig'],
-                                                '--center-features', o['ctr'], '--center-indices', o['inds']]
+        # the starting state comes from the front end's own (deterministic) k-centers run: a k-medoids COLD start seeds
+        # itself from OS entropy, which no seed of ours could replay
+        algo = ['--algorithm', 'kcenters'] if init is None else ['--algorithm', 'kmedoids', '--cluster-iterations', str(iters)]
+        a = ['cluster', '--features'] + feats + algo + ['--cluster-distance', P.metric_name, '--cluster-number', str(K),
+                                                       '--distances', o['dist'], '--assignments', o['assig'],
+                                                       '--center-features', o['ctr'], '--center-indices', o['inds']]
         if init is not None:
             a += ['--init-center-inds', init['inds'], '--init-assignments', init['assig'], '--init-distances', init['dist']]
         return a
@@ -473,7 +476,7 @@ def app_kmedoids_scenario(ctx):
     o1 = outs('cold')
     np.random.seed(t.draw(2 ** 31 - 1))
     run(argv_for(o1, it1), 1)
-    gi1, cost1 = decode(o1, 'k-medoids front end, cold start:')
+    gi1, cost1 = decode(o1, 'front end, k-centers run that provides the starting state:')
     o2 = outs('restart')
     np.random.seed(t.draw(2 ** 31 - 1))
     run(argv_for(o2, it2, init=o1), P.N)
